@@ -140,8 +140,12 @@ type swNode struct {
 	err []interface{}
 }
 
+// swPayload is the p2p.max_packet_msg_payload_size all switches of the current case are configured with.
+var swPayload = 1024
+
 func newSwNode(t failer, i int, chIDs []byte) *swNode {
 	pc := cfg.DefaultP2PConfig()
+	pc.MaxPacketMsgPayloadSize = swPayload
 	pc.FlushThrottleTimeout = time.Millisecond
 	pc.SendRate, pc.RecvRate = 1<<30, 1<<30
 	key := ed25519.GenPrivKeyFromSecret([]byte(fmt.Sprintf("verif-c17-node-%d", i)))
@@ -340,6 +344,8 @@ func clip(b []byte) string {
 
 func TestSwitchDelivery(t *testing.T) {
 	rapid.Check(t, func(t *rapid.T) {
+		swPayload = rapid.SampledFrom([]int{1024, 1024, 100, 127, 16376, 16384, 65536}).Draw(t, "payload")
+		defer func() { swPayload = 1024 }()
 		nSenders := rapid.SampledFrom([]int{2, 2, 3, 4}).Draw(t, "senders")
 		nCh := rapid.IntRange(1, 2).Draw(t, "channels")
 		chIDs := []byte{0x71, 0x72}[:nCh]
@@ -348,7 +354,13 @@ func TestSwitchDelivery(t *testing.T) {
 		for i := range plans {
 			n := rapid.IntRange(3, 40).Draw(t, fmt.Sprintf("s%d.n", i))
 			for k := 0; k < n; k++ {
-				size := rapid.SampledFrom([]int{0, 1, 30, 1000, 1024, 3000}).Draw(t, "size")
+				size := rapid.SampledFrom([]int{0, 1, 30, 1000, 1024, 3000, swPayload - 20, swPayload, 2*swPayload + 1}).Draw(t, "size")
+				if size < 0 {
+					size = 0
+				}
+				if size > 60000 { // channel capacity is 64 KiB
+					size = 60000
+				}
 				p := []byte(fmt.Sprintf("from-peer-%d-msg-%d|", i, k))
 				p = append(p, fill(uint64(i*1000+k), size)...)
 				plans[i] = append(plans[i], sent{ch: chIDs[rapid.IntRange(0, nCh-1).Draw(t, "ch")], payload: p})
@@ -357,7 +369,7 @@ func TestSwitchDelivery(t *testing.T) {
 		}
 		forced := rapid.IntRange(0, 4).Draw(t, "forced-overlaps")
 		lib.Case("TestSwitchDelivery", lib.FP(nSenders, nCh, forced, msgs), nSenders >= 2 && msgs >= 2*nSenders,
-			fmt.Sprintf("senders:%d", nSenders), fmt.Sprintf("channels:%d", nCh), fmt.Sprintf("forced-overlaps:%d", forced))
+			fmt.Sprintf("senders:%d", nSenders), fmt.Sprintf("payload:%d", swPayload), fmt.Sprintf("channels:%d", nCh), fmt.Sprintf("forced-overlaps:%d", forced))
 		switchDeliveryCase(t, "TestSwitchDelivery", chIDs, plans, forced)
 	})
 }
